@@ -1697,6 +1697,8 @@ def build_ts(ex):
     for n in (END, RAISE, FAIL):
         ts.state[n] = {}
     ts.allocs = {b: dict(i) for b, i in ex.allocs.items()}
+    ts.notes += list(ex.folded)
+    unbound = []
     for t in ex.trans:
         dst = t["dst"]
         scal = {}
@@ -1708,8 +1710,14 @@ def build_ts(ex):
                     raise Unsupported(f"`{v}` was taken for a constant of the loop at {dst} but arrives with another value")
                 continue
             if val is None:
-                val = ("var", v)
-            if kind[0] == "ptr":
+                # not bound on this path: the value at the source when the variable is part of the source's state, else no defined value
+                # (a violation further down only when the variable is live at the destination)
+                if v in ts.state.get(t["src"], {}) or v in ex.params or t["src"] not in ex.templates:
+                    val = ("var", v)
+                else:
+                    val = ("unknown",)
+                    unbound.append((len(ts.trans), v))
+            if kind[0] == "ptr" and val != ("unknown",):
                 if val[0] != "ptr" or val[1] != kind[1]:
                     raise Unsupported(f"pointer `{v}` arrives at {dst} pointing into another array")
                 val = val[2]
@@ -1728,6 +1736,12 @@ def build_ts(ex):
         bad = sorted(x for x in fv - ok)
         if bad:
             raise Uninitialised(f"{ex.label}: {t['src']} -> {t['dst']}: `{bad[0]}` is read before it is assigned", bad[0], f"{t['src']} -> {t['dst']}")
+    if unbound:
+        live = liveness(ts, with_ret=True)
+        for i, v in unbound:
+            t = ts.trans[i]
+            if v in live[t["dst"]]:
+                raise Uninitialised(f"{ex.label}: {t['src']} -> {t['dst']}: `{v}` is read before it is assigned", v, f"{t['src']} -> {t['dst']}")
     return ts
 
 
